@@ -99,3 +99,74 @@ def build(reg):
                       NAME, int(eventNames.SUBSCRIBE), NAME, int(eventNames.UNSUBSCRIBE)))],
         raises={}))
     return T
+
+
+def bounded_checks(reg, tier, seed):
+    """Bounded stand-in / counterexample finder on the real EventDispatcher (the solvers do not
+    build models for sequence-indexed clauses): 1..3 subscribers, every set of broken channels,
+    every break position in a fixed publish/unsubscribe script.  Exhaustive for that family."""
+    import itertools
+    from proxy.core.event.dispatcher import EventDispatcher
+    from proxy.core.event import eventNames
+
+    class Chan(object):
+        def __init__(self):
+            self.got, self.broken, self.closed = [], False, False
+
+        def send(self, x):
+            if self.broken:
+                raise BrokenPipeError()
+            self.got.append(x)
+
+        def close(self):
+            self.closed = True
+    bad = []
+    n_cases = 0
+    for n in (1, 2, 3):
+        for broken in itertools.product([None, 0, 1, 2, 3], repeat=n):      # index of the event before which the channel breaks
+            d = EventDispatcher(shutdown=None, event_queue=None)
+            chans = [Chan() for _ in range(n)]
+            expect = [[] for _ in range(n)]
+            alive = [False] * n
+            for i, c in enumerate(chans):
+                d.handle_event({'event_name': eventNames.SUBSCRIBE, 'event_payload': {'sub_id': 's%d' % i, 'conn': c}})
+                alive[i] = True
+                expect[i].append({'event_name': eventNames.SUBSCRIBED})
+            script = ['e0', 'e1', ('unsub', 0), 'e2', ('unsub', 0), ('unsub', 'nobody'), 'e3']
+            evno = 0
+            try:
+                for step in script:
+                    if isinstance(step, str):
+                        for i in range(n):
+                            if broken[i] == evno:
+                                chans[i].broken = True
+                        ev = {'event_name': eventNames.WORK_STARTED, 'event_payload': {'n': step}}
+                        d.handle_event(ev)
+                        for i in range(n):
+                            if alive[i]:
+                                if chans[i].broken:
+                                    alive[i] = False
+                                else:
+                                    expect[i].append(ev)
+                        evno += 1
+                    else:
+                        sid = step[1]
+                        d.handle_event({'event_name': eventNames.UNSUBSCRIBE,
+                                        'event_payload': {'sub_id': 's%s' % sid if sid != 'nobody' else 'nobody'}})
+                        if sid != 'nobody' and alive[sid]:
+                            if not chans[sid].broken:
+                                expect[sid].append({'event_name': eventNames.UNSUBSCRIBED})
+                            alive[sid] = False
+            except Exception as e:      # noqa
+                bad.append({'n': n, 'broken_before_event': list(broken), 'what': 'dispatcher raised %r' % (e,)})
+                continue
+            n_cases += 1
+            for i in range(n):
+                if chans[i].got != expect[i]:
+                    bad.append({'n': n, 'broken_before_event': list(broken), 'subscriber': i,
+                                'got': [str(x.get('event_payload', x))[:30] for x in chans[i].got],
+                                'expected': [str(x.get('event_payload', x))[:30] for x in expect[i]]})
+                    break
+    return [{'name': 'native exhaustive script sweep on EventDispatcher.handle_event', 'bounded': True,
+             'bound': '1..3 subscribers x every break position (none / before event 0..3) per channel, fixed script of 4 publishes and 3 unsubscribes',
+             'cases': n_cases, 'violations': bad[:3]}]
